@@ -1,3 +1,4 @@
+import EmmetProofs.CssSectionRanges
 import EmmetProofs.ActionRanges
 import EmmetProofs.CssActionRanges
 /-! # C17 — editor action helpers select exactly the tag they should (HTML helpers, over ANY event list) -/
@@ -37,5 +38,13 @@ theorem C17_css_select_prev (src : C.Str) (pos : Int) :
 
 example : (C.nextLoop ("a{b: c d;}".toList.map Char.toNat) 2 (C.scan ("a{b: c d;}".toList.map Char.toNat)) none).map (·.ranges)
     = some [(2, 9), (5, 8), (5, 6), (7, 8)] := by decide +kernel
+
+/-- `get_css_section`, for EVERY source and EVERY position: the reported rule contains the position, lies inside the source, and its body
+lies between its braces (`0 ≤ start ≤ pos ≤ end ≤ |source|`, `0 ≤ body_start ≤ body_end ≤ end`) -/
+theorem C17_css_section (src : C.Str) (pos : Int) :
+    ∀ s, C.sectionLoop pos (C.scan src) [] = some s → C.SecOK src.length pos s := C.getCssSection_ranges src pos
+
+example : (C.sectionLoop 5 (C.scan ("a{b{c:d}}".toList.map Char.toNat)) []).map (fun s => (s.start, s.stop, s.bodyStart, s.bodyEnd))
+    = some (2, 8, 4, 7) := by decide +kernel
 
 end EmmetProps
